@@ -2,7 +2,7 @@
 import itertools
 
 from framework import Issue
-from world import Item, drive, exc_name, make_source, asyncstdlib
+from world import Item, UserExc, drive, exc_name, make_source, asyncstdlib
 
 RULE = (
     "item sequences of length 0..L over K distinct keys x operation sequences over {advance groupby, advance group i, close group i} "
@@ -55,9 +55,26 @@ def _setup(case):
     return items, (lambda it: kv[it.key]), (lambda k: _key_index(kv, k)), (lambda it: it.id)
 
 
+def _failing(skey, case):
+    """the key function, failing at the given invocations (`keyfail`): the consumer catches the error and carries on"""
+    fails = set(case.get("keyfail") or [])
+    if not fails or skey is None:
+        return skey
+    n = [0]
+
+    def key(it):
+        k = n[0]
+        n[0] += 1
+        if k in fails:
+            raise UserExc(60 + k)
+        return skey(it)
+    return key
+
+
 def _ops_async(case):
     log = []
     items, skey, key_out, item_out = _setup(case)
+    skey = _failing(skey, case)
     if skey is None or case["key"] == "sync":
         keyf = skey
     else:
@@ -119,6 +136,7 @@ class _Counting:
 
 def _ops_sync(case):
     items, skey, key_out, item_out = _setup(case)
+    skey = _failing(skey, case)
     cnt = _Counting(items)
     gb = itertools.groupby(cnt) if skey is None else itertools.groupby(cnt, skey)
     groups, outs = [], []
@@ -139,6 +157,8 @@ def _ops_sync(case):
                 k, g = next(gb)
             except StopIteration:
                 outs.append(["stop"])
+            except UserExc as exc:
+                outs.append(["exc", exc_name(exc)])
             else:
                 outs.append(["key", key_out(k), len(groups)])
                 groups.append(g)
@@ -150,6 +170,8 @@ def _ops_sync(case):
                 outs.append(["item", item_out(next(groups[op[1]]))])
             except StopIteration:
                 outs.append(["stop"])
+            except UserExc as exc:
+                outs.append(["exc", exc_name(exc)])
         consumed[-1] = cnt.n
     for k in range(len(consumed)):
         if consumed[k] is None:
@@ -164,6 +186,8 @@ def observe(case):
 
 
 def model_request(case):
+    if case.get("keyfail"):
+        return None     # key-function faults are outside the machine (C06's subject); decided against itertools.groupby
     if case.get("kvals") is not None and case["key"] == "none":
         return None     # raw odd values as items: no identities to compare; decided by the itertools oracle
     return {"m": "groupby", "items": [[i, k] for i, k in enumerate(case["keys"])],
@@ -256,6 +280,16 @@ def cases(tier, rng):
                 if n % 4 == 0 and ln >= 2:
                     yield {"keys": list(keys), "ops": ops, "key": keysm[(n // 4) % 3], "src": srcs[n % len(srcs)],
                            "kvals": KVALS[(n // 12) % 5]}
+    # the key function fails at one or two of its invocations; the consumer catches the error and carries on with the
+    # same handles: the failing item is dropped exactly as itertools.groupby drops it
+    for ln in (2, 3, 4):
+        for keys in itertools.product([0, 1], repeat=ln):
+            for ops in _op_seqs(5 if tier == "quick" else 6, 2):
+                n += 1
+                for kf in ([0], [1], [2], [3], [1, 2]):
+                    if kf[-1] < ln and (tier != "quick" or (n + kf[0]) % 3 == 0):
+                        yield {"keys": list(keys), "ops": ops + [["grp", 0], ["adv"], ["grp", 1]], "key": keysm[1 + n % 2],
+                               "src": srcs[n % len(srcs)], "keyfail": kf}
     nr = 3000 if tier == "quick" else 60000
     for _ in range(nr):
         ln = rng.randint(0, 10)
@@ -272,6 +306,8 @@ def cases(tier, rng):
                 h = nadv - 1 if rng.random() < 0.6 else rng.randrange(nadv)
                 ops.append(["grp", h] if rng.random() < 0.85 else ["cls", h])
         case = {"keys": keys, "ops": ops, "key": rng.choice(keysm), "src": rng.choice(srcs)}
+        if case["key"] != "none" and rng.random() < 0.25:
+            case["keyfail"] = sorted(set(rng.randrange(max(ln, 1)) for _ in range(rng.randint(1, 2))))
         if rng.random() < 0.3:
             case["kvals"] = rng.choice(KVALS[5:] if nk > 2 else KVALS)
         yield case
